@@ -84,6 +84,27 @@ def corruptions(rng, root):
         if len(s):
             s.remove(rng.choice(list(s)))
             yield f"deleted-{kind}", r
+    # the same corruptions aimed at a parameter no entry list refers to (the checks are on the document, not on what
+    # the containers happen to use)
+    for kind in ("dup-identical", "dup-changed", "dangling-type", "type-deleted"):
+        r = fresh()
+        t_, p_, _ = sets(r)
+        un = [e for e in p_ if e.get("name", "").startswith("UNUSED")]
+        if not un:
+            break
+        el = un[0]
+        if kind.startswith("dup"):
+            dup = copy.deepcopy(el)
+            if kind == "dup-changed":
+                dup.set("parameterTypeRef", t_[0].get("name"))
+            p_.append(dup)
+        elif kind == "dangling-type":
+            el.set("parameterTypeRef", "NO_SUCH_TYPE")
+        else:
+            for te in list(t_):
+                if te.get("name") == el.get("parameterTypeRef"):
+                    t_.remove(te)
+        yield "unused-param-" + kind, r
     # cycles
     r = fresh()
     conts = list(sets(r)[2])
@@ -123,6 +144,13 @@ def generate(rng, tier):
             if rcs:
                 rc = rng.choice(rcs)
                 rc.getparent().remove(rc)
+        if rng.random() < 0.6:
+            # a declared parameter (with its own type) that no container uses: legal, and subject to the same checks
+            tm = root.find(q("TelemetryMetaData"))
+            ts_, ps_ = tm.find(q("ParameterTypeSet")), tm.find(q("ParameterSet"))
+            if len(ts_):
+                ut = copy.deepcopy(ts_[0]); ut.set("name", "UNUSED_T"); ts_.append(ut)
+                up = ET.SubElement(ps_, q("Parameter")); up.set("name", "UNUSED_P"); up.set("parameterTypeRef", "UNUSED_T")
         yield line_of(root), "valid"
         for kind, r in corruptions(rng, root):
             yield line_of(r), kind
